@@ -177,9 +177,9 @@ Definition spec_ref {A} (valid : A -> bool) (m : smap A) (ns ref : string) : get
        | Some o => if valid o then GOk else GInvalid
        end.
 
-Definition spec_dos_answer (enabled : bool) (ob : objects) (parent_ns nm : string) : dos_answer :=
+Definition spec_dos_by_key (enabled : bool) (ob : objects) (key : string) : dos_answer :=
   if negb enabled then DDisabled
-  else match lookup (get_ns_name parent_ns nm) (ob_dpr ob) with
+  else match lookup key (ob_dpr ob) with
        | None => DNotFound
        | Some o =>
            if negb (pr_valid o) then DInvalid
@@ -196,6 +196,9 @@ Definition spec_dos_answer (enabled : bool) (ob : objects) (parent_ns nm : strin
                          end
                 end
        end.
+
+Definition spec_dos_answer (enabled : bool) (ob : objects) (parent_ns nm : string) : dos_answer :=
+  spec_dos_by_key enabled ob (get_ns_name parent_ns nm).
 
 (* ------------------------------------------------------------------------------------------ *)
 (* Decidable specification over observed answers: one character per answer                      *)
